@@ -142,9 +142,62 @@ impl Monitor for C06 {
     fn streams(&self, tier: Tier) -> Vec<StreamSpec> {
         let mut s = v1_streams(tier, 5_000);
         s.extend(v2_streams(tier, 10_000));
+        if tier != Tier::Miri {
+            s.push(spec::engine::exhaustive("c06-huge", 18));
+        }
+        s.push(spec::engine::exhaustive("calling-context", 2));
         s
     }
     fn run_case(&self, stream: &str, idx: u64, seed: u64, rec: &mut Recorder) {
+        if stream == "calling-context" {
+            // the same calls from an ordinary place, a second time, and from a thread-local
+            // destructor at thread exit (pure functions do not depend on where they are called)
+            let _ = (idx, seed);
+            if spec::engine::layer().starts_with("miri") {
+                return;
+            }
+            crate::adapt::judge_context(&["C06"], rec);
+            return;
+        }
+        if stream == "c06-huge" {
+            // a header at the front of a multi-GiB buffer: the auto-detecting parser returns what
+            // the dedicated parser returns
+            if !spec::engine::huge_ok() {
+                return;
+            }
+            let mut rng = spec::rng::Rng::new(idx ^ seed.rotate_left(11));
+            let v1 = idx % 3 == 2;
+            let h: Vec<u8> = if v1 {
+                let mut l = spec::v1gen::valid_ascii_body(&mut rng).into_bytes();
+                l.extend_from_slice(b"\r\n");
+                l
+            } else {
+                let mut b = Vec::new();
+                let (vc, fp) = spec::v2::valid_ctl(idx);
+                spec::v2::valid_header_budget(&mut rng, &mut b, vc, fp, Some(40));
+                b
+            };
+            let size = spec::engine::HUGE_SIZES[(idx / 3) as usize % spec::engine::HUGE_SIZES.len()];
+            rec.case(hash_bytes(&h) ^ size as u64, true);
+            rec.events(3);
+            let r = spec::engine::with_huge(&h, size, |x| (v2_parse(x), v1_bytes(x), auto_parse(x)));
+            match r {
+                None => rec.class("skipped:huge-allocation-refused", || size.to_string()),
+                Some((a, b, c)) => {
+                    let fine = match &c {
+                        OA::V2(co) => a.is_ok() && strip2(co) == strip2(&a),
+                        OA::V1(co) => !a.is_ok() && b.is_ok() && strip1(co) == strip1(&b),
+                        OA::Panic(_) => false,
+                    };
+                    if fine {
+                        rec.class("oracle:header-in-a-multi-GiB-buffer", || format!("{} bytes", size));
+                    } else {
+                        rec.violation(if a.is_ok() { "v2-success-not-returned" } else { "v1-success-not-returned" }, enc_case(if v1 { "v1" } else { "v2" }, &h), "huge-buffer".into(), format!("header {:?} at the front of a zero-filled buffer of {} bytes: v2 parser {}, v1 parser {}, auto {}", show(&h, 60), size, a.class(), b.class(), c.class()));
+                    }
+                }
+            }
+            return;
+        }
         if stream.starts_with("v1-") {
             let x = v1_case(stream, idx, seed);
             spec::sib::run_v1(&x, idx, 4, |x| judge(x, rec, "v1"));
